@@ -26,6 +26,7 @@ package kvql
 //@   ensures err == nil ==> ((len(rows) == 0) == (old(pcur(p)) >= plen(p)))
 //@   ensures err != nil ==> len(rows) == 0 && pcur(p) == old(pcur(p))
 //@   ensures (failed ==> err == lastErr) && (err == nil ==> !failed)
+//@   ensures[C05] nokeys: err == nil && len(rows) > 0 && ctx != nil && ctx.EnableCache && ctx.FieldChunkKeyCaches != nil ==> (forall q B :: !has(ctx.FieldChunkKeyCaches, q))
 //
 //@ iface (p Plan) Next(ctx *ExecuteCtx) (key []byte, value []byte, err error)
 //@   requires nofail: !failed
